@@ -27,6 +27,8 @@ class PersistentWorker(Worker):
         if _results_pipe is None:
             raise ValueError('_results_pipe should not be None')
         self._results_pipe = _results_pipe
+        self._counter = 0 # (re)set by _init_child in the child; a child terminated before it gets that far still goes through _cleanup, which reports the counter
+        self._stop = False
         super().__init__(target, **kwargs)
         self._closed = False
 
